@@ -13,6 +13,11 @@ Theorem C19_src_tri_intersections_next_run : forall f s i ty t w so hf col n, (4
   = nonempty i ty ++ nonempty f PtStroke ++ nonempty s PtStroke.
 Proof. exact src_tri_si_next_run. Qed.
 
+(* round 5: ScanlineIntersections::empty yields nothing *)
+Theorem C19_src_scanline_intersections_empty_yields_nothing :
+  snd (src_ScanlineIntersections_next src_ScanlineIntersections_empty) = None.
+Proof. vm_compute. reflexivity. Qed.
+
 Example C19_src_triscan_nonvacuous :
   src_tri_si_drive 4 (Build_ScanlineIntersections (Build_LineConfig (Build_Scanline 3 (1, 4)) (Build_Scanline 3 (9, 9)) (Build_Scanline 3 (4, 8)) PtFill)
                        (Build_Triangle (P 0 0, P 1 1, P 2 2)) 1 SONone true false)
